@@ -113,13 +113,15 @@ class ChoiceStream:
     choice 0 = full answer; choice c (1 <= c < full) = c bytes.  End of data answers b''.
     """
 
-    def __init__(self, ex, data, src_prefix, short=True):
+    def __init__(self, ex, data, src_prefix, short=True, menu_cap=None):
         self.ex = ex
         self.data = data
         self.pos = 0
         self.calls = []          # (requested, delivered)
         self.src_prefix = src_prefix
         self.short = short
+        self.menu_cap = menu_cap   # when set and a read could be answered in more than menu_cap ways, only
+        #                            the answers {all, 1, 2, all-1} are offered (stated in the evidence)
         self.canon = Canon(names={id(self): 'STREAM', id(ex): 'EX'}, tb=False)
         self.extra_state = None  # optional callable adding harness state to the key
 
@@ -133,8 +135,8 @@ class ChoiceStream:
             fn = f.f_code.co_filename
             if fn.startswith(self.src_prefix):
                 loc = f.f_locals
-                frames.append((f.f_code.co_name, f.f_lasti,
-                               tuple(sorted(((k, self.canon._c(v, memo)) for k, v in loc.items()), key=repr))))
+                frames.append((f.f_code.co_name, f.f_lineno,
+                               tuple((k, self.canon._c(v, memo)) for k, v in sorted(loc.items()))))
             f = f.f_back
         extra = self.extra_state() if self.extra_state else None
         return (self.pos, tuple(frames), extra)
@@ -149,6 +151,10 @@ class ChoiceStream:
             full = min(n, avail)
         if full <= 1 or not self.short:
             k = full
+        elif self.menu_cap is not None and full > self.menu_cap:
+            menu = [full, 1, 2, full - 1]
+            c = self.ex.choose(len(menu), self._key())
+            k = menu[c]
         else:
             c = self.ex.choose(full, self._key())
             k = full if c == 0 else c
